@@ -23,6 +23,7 @@ def _module_job(job):
     res = Result("C14", tier, seed, "translation_validation")
     kf = None
     t0 = time.time()
+    job_budget = 420 if tier == "quick" else 1500
     programs = 0
     base = U.compile_module(src, "silent", "all", kind)
     if "Ok" not in base:
@@ -38,6 +39,10 @@ def _module_job(job):
             continue
         for fi, fn in enumerate(r["Ok"]["functions"]):
             if not U.in_chunk(m_, fi):
+                continue
+            if time.time() - t0 > job_budget:
+                # the wall-clock budget of this job is spent: what is left is reported as undecided, never as passed
+                res.add(Obligation(f"{mname}:{fn['name']}[{level}/{scope}]", "undecided", f"job time budget ({job_budget} s) exhausted before this comparison"))
                 continue
             b = bfns.get(fn["name"])
             if b is None or fn.get("skipped") or not fn.get("post") or not b.get("post") or not U.passes_natively(fn):
